@@ -16,6 +16,17 @@ for p in sorted(glob.glob(os.path.join(V, "findings", "C*.json"))):
         if old and old.get("status") == "fixed":
             continue  # a fixed entry is never reopened by a fragment
         by_id[f["id"]] = keep
+# an OPEN entry of a property whose fragment no longer lists it is stale (withdrawn as a false alarm, or renumbered)
+frag_ids, frag_props = set(), set()
+for p in sorted(glob.glob(os.path.join(V, "findings", "C*.json"))):
+    frag = json.load(open(p))
+    for f in (frag["findings"] if isinstance(frag, dict) else frag):
+        frag_ids.add(f["id"]); frag_props.add(f["property"])
+for i in list(by_id):
+    f = by_id[i]
+    if f.get("status") == "open" and f["property"] in frag_props and i not in frag_ids:
+        print("dropping stale open entry", i)
+        del by_id[i]
 data["findings"] = sorted(by_id.values(), key=lambda f: f["id"])
 json.dump(data, open(kf, "w"), indent=1)
 print("known findings:", [(f["id"], f["status"]) for f in data["findings"]])
